@@ -95,8 +95,10 @@ Definition model_case (c : case) : string :=
   let fin := quiescentb pc (code (bodies_of (c_bodies c)) (c_variant c)) m in
   if log_eqb ml (c_log c) && Bool.eqb fin (c_finished c) && Bool.eqb (has_jobs_of m) (c_has_jobs c)
   then "="
-  else "DIFF at " +++ show_Z (first_diff 0 ml (c_log c)) +++ " finished=" +++ show_bool fin
-       +++ " has_jobs=" +++ show_bool (has_jobs_of m) +++ " model log: " +++ show_log ml.
+  else let d := first_diff 0 ml (c_log c) in
+       "DIFF at " +++ show_Z d +++ " finished=" +++ show_bool fin
+       +++ " has_jobs=" +++ show_bool (has_jobs_of m) +++ " model log from " +++ show_Z (Z.max 0 (d - 4)) +++ ": "
+       +++ show_log (firstn 14 (skipn (Z.to_nat (d - 4)) ml)).
 Definition model_cases (l : list case) : string := sconcat (map (fun c => model_case c +++ "|") l).
 
 (* the model's own run, printed (replay, diagnostics) *)
